@@ -255,7 +255,7 @@ Allowed(k, fmt, h) ==
 (* private key or by import of an extended public key denotes the same point *)
 (* and must give every public export of that point.                          *)
 (* ------------------------------------------------------------------------ *)
-\* rt = [r, fmt, ep]: r = "import": the object is the import of Export(k, rt.fmt) at entry point rt.ep ("key" | "hd")
+\* rt = [r, fmt, ep]: r = "import": the object is the import of Export(k, rt.fmt) at entry point rt.ep ("key" | "hd" | "hdfw")
 \* with all hints; "public": public() of the key's object; anything else: the key's own object
 Routed(k, rt) ==
     CASE rt.r = "import" ->
@@ -263,7 +263,7 @@ Routed(k, rt) ==
                ext == rt.fmt \in ExtFmts
            IN [k EXCEPT !.priv = p, !.secret = IF p THEN k.secret ELSE <<>>,
                         !.compressed = (ExpectComp(k, rt.fmt, AllHints) # "F"),
-                        !.hd = (rt.ep = "hd"),
+                        !.hd = (rt.ep \in {"hd", "hdfw"}),
                         \* a representation without chain data gives depth 0, child number 0, no parent, zero chain code
                         !.depth = IF ext THEN k.depth ELSE 0,
                         !.index = IF ext THEN k.index ELSE <<0, 0, 0, 0>>,
@@ -274,6 +274,22 @@ Routed(k, rt) ==
 
 \* Value classes the conformance check has to cover (where fixed-width fields lose digits): leading zero nibble / byte
 \* of x, of y and of the secret, both parities of y
+\* ... and binary fields whose bytes look like text (where a "bytes or text" convenience may re-read them): every byte an
+\* ASCII digit, a hexadecimal digit (either case), "0x" followed by hexadecimal digits, printable ASCII, or all zero
+IsDigitC(c) == c \in 48..57
+IsHexC(c)   == c \in 48..57 \/ c \in 97..102 \/ c \in 65..70
+TextClass(b) ==
+    IF b = <<>> THEN "binary"
+    ELSE IF \A i \in 1..Len(b) : b[i] = 0 THEN "all-zero"
+    ELSE IF \A i \in 1..Len(b) : IsDigitC(b[i]) THEN "digits"
+    ELSE IF Len(b) > 2 /\ b[1] = 48 /\ b[2] = 120 /\ (\A i \in 3..Len(b) : IsHexC(b[i])) THEN "0x-prefix"
+    ELSE IF \A i \in 1..Len(b) : IsHexC(b[i]) THEN "hex-digits"
+    ELSE IF \A i \in 1..Len(b) : b[i] \in 32..126 THEN "printable"
+    ELSE "binary"
+TextClassNames == {"all-zero", "digits", "0x-prefix", "hex-digits", "printable"}
+FieldClasses(k, fields) ==
+    {f \o ":" \o TextClass(IF f = "fp" THEN k.fp ELSE IF f = "chain" THEN k.chain ELSE IF f = "index" THEN k.index ELSE k.secret) :
+        f \in fields} \ {f \o ":binary" : f \in fields}
 ValueClasses(k) ==
     {IF k.y[32] % 2 = 0 THEN "y-even" ELSE "y-odd"}
     \cup (IF k.y[1] < 16 THEN {"y-zero-nibble"} ELSE {}) \cup (IF k.y[1] = 0 THEN {"y-zero-byte"} ELSE {})
@@ -287,8 +303,12 @@ PubRoutes == {"import:pubhex_c", "import:pubbytes_c", "import:pubhex_u", "import
 \* zero byte
 FamilyConfigs == {<<Family(c[1]), c[2], c[3]>> : c \in DefConfigs}
 ConfigName(f) == f[1] \o "/" \o f[2] \o (IF f[3] THEN "/multisig" ELSE "/single")
+\* every fixed-width binary field of an extended key (and the secret in its other forms) in every text-looking class
+\* (a secret cannot be zero)
+RequiredFields == ({f \o ":" \o c : f \in {"fp", "chain", "index", "secret"}, c \in TextClassNames}) \ {"secret:all-zero"}
 RequiredCover == {<<r, c>> : r \in PubRoutes, c \in PointClasses}
                  \cup {<<"xprv", ConfigName(f)>> : f \in FamilyConfigs}
+                 \cup {<<"field", c>> : c \in RequiredFields}
 
 \* P2PKH version bytes
 AddrVersion(n) == CASE Family(n) = "btc"   -> 0
